@@ -274,7 +274,86 @@ def fam_mixed_solid(ctx, rng):
         ctx.violation('polyface3d:area:mixed_orientation', 'area %r, sum of the face areas %r' % (pf.area, ar), desc)
 
 
-FAMILIES = [(fam_polygon, 40), (fam_face, 25), (fam_mesh, 25), (quad_mesh_general, 10), (fam_polyface, 12), (fam_mixed_solid, 40),
+def fam_one_reflex(ctx, rng):
+    """a polygon with exactly ONE re-entrant corner, given at every cyclic start and in both orders (so the corner is in turn the
+    first, the last and every other vertex): never convex; as a tilted face its area, centroid and triangulated area are exact"""
+    base = G.convex_polygon(rng, n=rng.randint(4, 7), R=10.0, center=(0.0, 0.0))
+    n = len(base)
+    i = rng.randrange(n)
+    cx = sum(p[0] for p in base) / n; cy = sum(p[1] for p in base) / n
+    mx = (base[i - 1][0] + base[(i + 1) % n][0]) / 2; my = (base[i - 1][1] + base[(i + 1) % n][1]) / 2
+    t = rng.choice([0.3, 0.5, 0.7])
+    pts = list(base)
+    pts[i] = (G.dy(mx + t * (cx - mx)), G.dy(my + t * (cy - my)))
+    f0 = [X.fpt(p) for p in pts]
+    turns = [X.orient(f0[k - 2], f0[k - 1], f0[k]) for k in range(n)]
+    if not G.certify_polygon(pts) or sum(1 for x in turns if x < 0) != 1 or any(x == 0 for x in turns):
+        return
+    frame = G.rational_frame(rng); o = G.rpt3(rng, 100.0)
+    (ecx, ecy), ea = centroid_region(f0, [])
+    c3 = G.embed(frame, o, (float(ecx), float(ecy)))
+    ctx.count('one_reflex', key=(n, i, t), sample={'polygon': pts}, nontrivial=True)
+    for rev in (False, True):
+        for k in range(n):
+            q = pts[k:] + pts[:k]
+            if rev:
+                q = q[::-1]
+            desc = {'polygon': q, 'frame': frame, 'origin': o}
+            where = 'last' if (q[-1] == pts[i]) else ('first' if q[0] == pts[i] else 'middle')
+            poly = Polygon2D([P2(p) for p in q])
+            if poly.is_convex:
+                ctx.violation('polygon2d:is_convex:reflex_%s' % where, 'a polygon with one re-entrant corner (%s vertex) reported convex' % where, desc); return
+            face = Face3D([P3(G.embed(frame, o, p)) for p in q])
+            if not X.close(face.area, ea, 1e-8):
+                ctx.violation('face3d:area:reflex_%s' % where, 'area %r expected %r' % (face.area, float(ea)), desc); return
+            if not X.pclose(X.fpt(c3), X.fpt(face.centroid), 1e-8, 100.0):
+                ctx.violation('face3d:centroid:reflex_%s' % where, 'centroid %r expected %r' % (face.centroid, c3), desc); return
+            tm = face.triangulated_mesh3d
+            if not X.close(tm.area, ea, 1e-8):
+                ctx.violation('face3d:triangulated_area:reflex_%s' % where, 'triangulated mesh area %r, face area %r' % (tm.area, float(ea)), desc); return
+
+
+def fam_grid_mesh(ctx, rng):
+    """grid meshes made by the factories (Mesh2D.from_polygon_grid, Face3D.mesh_grid) with cell sizes that do and do not divide the
+    extents: the reported face areas / area are the true areas of the faces the mesh holds"""
+    b = G.star_polygon(rng, n=rng.randint(4, 8), R=rng.choice([3.0, 10.0]), center=(0.0, 0.0))
+    ext = min(max(p[0] for p in b) - min(p[0] for p in b), max(p[1] for p in b) - min(p[1] for p in b))
+    xd = G.dy(ext / rng.choice([2.3, 3.0, 4.7, 6.1])); yd = rng.choice([xd, G.dy(xd * rng.choice([0.6, 1.0, 1.35]))])
+    d3 = rng.random() < 0.5
+    try:
+        if d3:
+            frame = G.rational_frame(rng); o = G.rpt3(rng, 100.0)
+            face = Face3D([P3(G.embed(frame, o, p)) for p in b])
+            mesh = face.mesh_grid(xd, yd, rng.choice([None, 0.25]), rng.random() < 0.5)
+        else:
+            mesh = Mesh2D.from_polygon_grid(Polygon2D([P2(p) for p in b]), xd, yd)
+    except AssertionError:
+        return
+    desc = {'polygon': b, 'x_dim': xd, 'y_dim': yd, '3d': d3}
+    ctx.count('grid_mesh', key=(len(b), xd, yd, d3), sample=desc, nontrivial=True)
+    fam = 'mesh3d.grid' if d3 else 'mesh2d.grid'
+    vs = [X.fpt(p) for p in mesh.vertices]
+    def exact_area(f):
+        lp = [vs[i] for i in f]
+        if d3:
+            return math.sqrt(float(X.norm2(X.newell(lp)))) / 2
+        return float(X.area(lp))
+    areas = [exact_area(f) for f in mesh.faces]
+    fa = mesh.face_areas
+    if isinstance(fa, (int, float)):
+        fa = [fa] * len(mesh.faces)
+    for k, (g, e) in enumerate(zip(fa, areas)):
+        if abs(g - e) > 1e-8 * max(1.0, e):
+            ctx.violation(fam + ':face_area', 'face %d area %r, its vertices enclose %r' % (k, g, e), desc); return
+    if abs(mesh.area - sum(areas)) > 1e-8 * max(1.0, sum(areas)):
+        ctx.violation(fam + ':area', 'area %r, the faces enclose %r' % (mesh.area, sum(areas)), desc); return
+    for k, (f, gc) in enumerate(zip(mesh.faces, mesh.face_area_centroids)):
+        em = [sum(vs[i][c] for i in f) / len(f) for c in range(3 if d3 else 2)]      # grid cells are parallelograms: area centroid = vertex mean
+        if max(abs(float(a) - b_) for a, b_ in zip(em, gc)) > 1e-8 * 100:
+            ctx.violation(fam + ':face_area_centroid', 'face %d area centroid %r expected %r' % (k, gc, [float(x) for x in em]), desc); return
+
+
+FAMILIES = [(fam_one_reflex, 12), (fam_grid_mesh, 20), (fam_polygon, 40), (fam_face, 25), (fam_mesh, 25), (quad_mesh_general, 10), (fam_polyface, 12), (fam_mixed_solid, 40),
             (fam_closed_forms, 15)]
 
 
